@@ -53,6 +53,10 @@ Inductive case :=
          (impl_loads : list (nat * lobs))        (* per distinct successfully stored root index *)
 | CDoc (be : list (string * json)) (i : string)  (* hand-written documents: load i, store the result elsewhere *)
        (impl_ok : bool) (impl_redoc : list (string * json))
+| CPinned (be : list (string * json)) (i : string)   (* documents written by the pinned code (corpus) *)
+          (expected : pt)                          (* the template they were written from, as introspected then *)
+          (impl_loaded : option pt)                (* what the implementation loads now, introspected *)
+          (iface_ok : bool)                        (* its interface and duration equal the ones recorded then *)
 | CCrash.
 
 Fixpoint lookup_nat {A} (k : nat) (l : list (nat * A)) : option A :=
@@ -125,6 +129,12 @@ Definition check_corr (c : case) : bool :=
           impl_ok && match store (empty_s []) p with Ok s => be_eqb (s_be s) impl_redoc | Err _ => false end
       | Err _ => negb impl_ok
       end
+  | CPinned be i _ impl_loaded _ =>
+      match load LOAD_FUEL be fresh_l i, impl_loaded with
+      | Ok (p, _), Some q => json_eqb (repr p) (repr q)
+      | Err _, None => true
+      | _, _ => false
+      end
   | CCrash => false
   end.
 
@@ -188,5 +198,8 @@ Definition check_spec (c : case) : bool :=
       && forallb (fun k => match lookup_nat k impl_loads with Some l => all_true l | None => false end) stored
       && (negb (clean roots ops) || forallb (fun r => sres_eqb r SOk) impl_res)
   | CDoc _ _ _ _ => true
+  (* an old document must keep loading to the template it was written from *)
+  | CPinned _ _ expected impl_loaded iface_ok =>
+      match impl_loaded with Some q => json_eqb (repr q) (repr expected) && iface_ok | None => false end
   | CCrash => false
   end.
